@@ -39,6 +39,11 @@ def extract(ctx):
     f["event"] = ev
     # the watcher selects the event by its index among the contract's event declarations
     decl = re.findall(r"^\s*event\s+(\w+)\s*\(", gov, re.M)
+    import glob
+    croot = os.path.join(vlib.REPO, "alephium", "contracts")
+    f["publishers"] = sorted(os.path.relpath(q, croot) for q in glob.glob(os.path.join(croot, "**", "*.ral"), recursive=True)
+                             if os.path.relpath(q, croot) != "governance.ral" and not os.path.relpath(q, croot).startswith("tests")
+                             and re.search(r"\bpublishWormholeMessage\s*(\{[^}]*\})?\s*\(", re.sub(r"//[^\n]*", "", vlib.read(q))))
     f["eventOrder"] = decl
     f["eventIndex"] = decl.index("WormholeMessage") if "WormholeMessage" in decl else len(decl)
     m = re.search(r"emit\s+WormholeMessage\s*\(([^\n]*)\)\s*\n", gov)
@@ -150,6 +155,7 @@ def gen(ctx):
     src += "/-- utils.go constants and parseAttestToken slices (tokenId, chain, symbol, name, decimals) -/\n"
     for name in ("WormholeMessageFieldSize", "TransferTokenPayloadId", "AttestTokenPayloadId", "AttestTokenPayloadLength", "HashLength", "WormholeMessageEventIndex"):
         src += "def go%s : Nat := %d\n" % (name, f["go" + name])
+    src += "/-- contract sources (other than governance.ral itself) that call governance.publishWormholeMessage: the event's sender is the caller -/\ndef wormholePublishers : List String := [%s]\n" % ", ".join('"%s"' % x for x in f["publishers"])
     src += "/-- position of `event WormholeMessage` among the event declarations of governance.ral (= the event index a node reports) -/\ndef eventIndex : Nat := %d\n" % f["eventIndex"]
     src += "def goSlices : List (Nat × Nat) := [%s]\n" % ", ".join("(%d, %d)" % x for x in f["goSlices"])
     src += "def goChainIDAlephium : Nat := %d\n" % f["goChainIDAlephium"]
@@ -174,6 +180,17 @@ def contract_deviations(ctx, f, pid="C11"):
                      "(WormholeMessageEventIndex): every token-bridge message is rejected on both paths" % (f["eventOrder"], f["eventIndex"], f["goWormholeMessageEventIndex"])),
             "replay": {"eventOrder": f["eventOrder"], "contractIndex": f["eventIndex"], "goIndex": f["goWormholeMessageEventIndex"],
                        "failing_input": "any message published through governance.publishWormholeMessage after this contract version is deployed"}})
+    # the sender recorded in the event is callerContractId!(): the contract that calls governance.publishWormholeMessage. The watcher
+    # accepts events whose sender is the TokenBridge contract, so the only caller may be token_bridge.ral
+    callers = f["publishers"]
+    if callers != ["token_bridge/token_bridge.ral"]:
+        ctx.spec_violations.append({
+            "key": "wormhole-message-published-by-other-contract",
+            "what": ("governance.publishWormholeMessage records callerContractId!() as the sender; it is called from %s, the watcher accepts only "
+                     "events whose sender is the TokenBridge contract (token_bridge/token_bridge.ral): messages published from the other "
+                     "contract(s) are dropped as foreign" % callers),
+            "replay": {"callers": callers, "expected": ["token_bridge/token_bridge.ral"],
+                       "failing_input": "any message published through a caller other than the TokenBridge contract (e.g. a transferToken after the change)"}})
     if pid != "C11":
         return
     names = [n for n, _, _ in f["attestEncoder"]]
